@@ -84,7 +84,8 @@ Definition errors_match (e : string) (eqs : list json) : bool :=
   existsb (str_is e) eqs || existsb (str_is "States.TaskFailed") eqs ||
   match eqs with [x] => str_is "States.ALL" x | _ => false end.
 Definition unrecoverable_err (e : string) : bool :=
-  String.eqb e "States.Runtime" || String.eqb e "States.ExecutionTimeout" || String.eqb e "Task.Terminated".
+  String.eqb e "States.Runtime" || String.eqb e "States.ExecutionTimeout" || String.eqb e "Task.Terminated" ||
+  String.eqb e "States.ExecutionHistoryLimitExceeded".
 
 Definition list_of (o : option json) : list json := match o with Some (JArr l) => l | _ => [] end.
 
